@@ -38,6 +38,9 @@ type SliceDotsMatcher struct {
 
 	// Positions at which dots were found.
 	Dots []token.Pos // inv: len(dots) = len(sections) - 1
+
+	// Names of the metavariables that each section refers to.
+	metavars [][]string // inv: len(metavars) = len(sections)
 }
 
 func (c *matcherCompiler) compileSliceDots(items reflect.Value, isDots func(ast.Node) bool) Matcher {
@@ -48,6 +51,10 @@ func (c *matcherCompiler) compileSliceDots(items reflect.Value, isDots func(ast.
 		sections [][]Matcher
 		current  []Matcher
 		dots     []token.Pos
+		metavars [][]string
+
+		// Number of metavariables seen before the current section.
+		seen = len(c.metavars)
 	)
 	for i := 0; i < items.Len(); i++ {
 		item := items.Index(i)
@@ -56,12 +63,15 @@ func (c *matcherCompiler) compileSliceDots(items reflect.Value, isDots func(ast.
 			c.dots = append(c.dots, dotPos)
 			dots = append(dots, dotPos)
 			sections = append(sections, current)
+			metavars = append(metavars, c.metavars[seen:len(c.metavars):len(c.metavars)])
+			seen = len(c.metavars)
 			current = nil
 		} else {
 			current = append(current, c.compile(item))
 		}
 	}
 	sections = append(sections, current)
+	metavars = append(metavars, c.metavars[seen:len(c.metavars):len(c.metavars)])
 
 	// Optimization: If there are no "..."s, we can use the faster slice
 	// matcher.
@@ -69,7 +79,7 @@ func (c *matcherCompiler) compileSliceDots(items reflect.Value, isDots func(ast.
 		return SliceMatcher{Items: sections[0]}
 	}
 
-	return SliceDotsMatcher{Sections: sections, Dots: dots}
+	return SliceDotsMatcher{Sections: sections, Dots: dots, metavars: metavars}
 }
 
 // Match matches
@@ -85,7 +95,7 @@ func (m SliceDotsMatcher) Match(got reflect.Value, d data.Data, r Region) (data.
 		return d, false
 	}
 
-	return matchSections(m.Dots, m.Sections[1:], gotItems, d, r, idx)
+	return matchSections(m.Dots, m.Sections[1:], m.metavars, gotItems, d, r, idx, make(failedSections))
 }
 
 // Returns Region for items[start:end].
@@ -121,16 +131,33 @@ func matchPrefix(want []Matcher, got []reflect.Value, d data.Data, r Region, idx
 	return idx + len(want), d, true
 }
 
+// failedSections records from where the remaining sections of a list are
+// known not to match, keyed by the number of sections that remain and the
+// index in the list.
+type failedSections map[[2]int]bool
+
 // matchSections matches the given sections against got[idx:]. Each section
 // is preceded by the "..." at the corresponding position in dots. For every
 // "...", the shortest run of skipped items that allows the rest of the
 // sections to match is used, and all of got must be consumed.
 //
+// metavars holds the names of the metavariables that the last len(metavars)
+// sections refer to, if known.
+//
+// failed holds what is already known not to match. Without it, a list that
+// does not match is searched once per combination of candidate positions,
+// which is exponential in the number of "...".
+//
 // Invariant: If ok is true, a list of skipped items will have been pushed to
 // Data for each "...".
-func matchSections(dots []token.Pos, sections [][]Matcher, got []reflect.Value, d data.Data, r Region, idx int) (_ data.Data, ok bool) {
+func matchSections(dots []token.Pos, sections [][]Matcher, metavars [][]string, got []reflect.Value, d data.Data, r Region, idx int, failed failedSections) (_ data.Data, ok bool) {
 	if len(sections) == 0 {
 		return d, idx == len(got)
+	}
+
+	key := [2]int{len(sections), idx}
+	if failed[key] {
+		return d, false
 	}
 
 	want := sections[0]
@@ -149,14 +176,53 @@ func matchSections(dots []token.Pos, sections [][]Matcher, got []reflect.Value, 
 			continue
 		}
 
+		// Whether the rest of the sections match depends only on the
+		// position and on the metavariables they refer to. What is known
+		// to fail stays valid unless this section bound one of those.
+		rest := failed
+		if bindsAny(d, newD, sections[1:], metavars) {
+			rest = make(failedSections)
+		}
+
 		// The rest of the sections must match too. Otherwise, try a
 		// longer run for this "...".
-		if newD, ok := matchSections(dots[1:], sections[1:], got, newD, r, newIdx); ok {
+		if newD, ok := matchSections(dots[1:], sections[1:], metavars, got, newD, r, newIdx, rest); ok {
 			return newD, true
 		}
 	}
 
+	failed[key] = true
 	return d, false
+}
+
+// bindsAny reports whether newD, which was built on top of d, binds a
+// metavariable that one of the given sections refers to. metavars holds the
+// names that the last len(metavars) sections of the list refer to; if it
+// does not cover the given sections, any metavariable counts.
+func bindsAny(d, newD data.Data, sections [][]Matcher, metavars [][]string) bool {
+	known := len(metavars) >= len(sections)
+	if known {
+		metavars = metavars[len(metavars)-len(sections):]
+	}
+
+	keys := newD.Keys()
+	for _, k := range keys[len(d.Keys()):] {
+		name, ok := k.(metavarKey)
+		if !ok {
+			continue
+		}
+		if !known {
+			return true
+		}
+		for _, names := range metavars {
+			for _, n := range names {
+				if n == string(name) {
+					return true
+				}
+			}
+		}
+	}
+	return false
 }
 
 // SliceDotsReplacer replaces target nodes and reproduces the values captured by
